@@ -73,9 +73,24 @@ def must_pass(g: CFG, targets, through, start=None, skip_labels=frozenset(), edg
     Returns the list of targets reachable while avoiding ``through`` (empty = holds)."""
     start = [g.entry] if start is None else list(start)
     through = set(through)
+    if not skip_labels and _has_inlined_code(g):
+        # code that sa/deextract.py inlined back carries result variables and one-trip loops: follow None-flags precisely
+        r = reach_ps(g, [s for s in start if s not in through], avoid=through, edge_ok=edge_ok)
+        return [t for t in targets if t in r and t not in through]
     r = reach(g, [s for s in start if s not in through], avoid=through, skip_labels=skip_labels,
               include_srcs=True, edge_ok=edge_ok)
     return [t for t in targets if t in r and t not in through]
+
+
+def _has_inlined_code(g: CFG) -> bool:
+    v = getattr(g, "_inlined", None)
+    if v is None:
+        v = any(isinstance(n.ast, ast.For) and isinstance(n.ast.target, ast.Name) and n.ast.target.id == "_once" for n in g.nodes.values())
+        try:
+            g._inlined = v
+        except Exception:
+            pass
+    return v
 
 
 def dominators(g: CFG, skip_labels=frozenset()) -> dict[int, set[int]]:
@@ -266,3 +281,102 @@ class Product:
             out.append(cur[0])
             cur = self.at[cur]
         return list(reversed(out))
+
+
+# ---------------------------------------------------------------- None-ness sensitive reachability
+def none_flag_vars(g: CFG) -> set[str]:
+    """Locals used as None-flags: assigned the literal None somewhere and tested for None-ness somewhere."""
+    assigned, tested = set(), set()
+    for n in g.nodes.values():
+        a = n.ast
+        if n.kind == "stmt" and isinstance(a, ast.Assign) and isinstance(a.value, ast.Constant) and a.value.value is None:
+            for t in a.targets:
+                if isinstance(t, ast.Name):
+                    assigned.add(t.id)
+        if n.kind == "test":
+            e = a
+            if isinstance(e, ast.Compare) and len(e.ops) == 1 and isinstance(e.ops[0], (ast.Is, ast.IsNot)) and isinstance(e.left, ast.Name) \
+                    and isinstance(e.comparators[0], ast.Constant) and e.comparators[0].value is None:
+                tested.add(e.left.id)
+            elif isinstance(e, ast.Name):
+                tested.add(e.id)
+    return assigned & tested
+
+
+def reach_ps(g: CFG, srcs, avoid=frozenset(), edge_ok=None, track: set[str] | None = None) -> set[int]:
+    """reach() made sensitive to None-flags: the None-ness of the tracked locals is part of the state, assignments update
+    it, `v is None` / `v is not None` / `v` tests prune the infeasible edge.  (Needed after helpers were inlined with a
+    result variable: `pack = None; ...; if pack is not None:`.)"""
+    track = none_flag_vars(g) if track is None else track
+    if not track:
+        return reach(g, srcs, avoid=avoid, include_srcs=True, edge_ok=edge_ok)
+    names = sorted(track)
+    idx = {v: k for k, v in enumerate(names)}
+    avoid = set(avoid)
+
+    def node_fn(node, st):
+        if node.id in avoid:
+            return None
+        a = node.ast
+        if node.kind == "stmt" and isinstance(a, (ast.Assign, ast.AnnAssign)) and getattr(a, "value", None) is not None:
+            tgts = a.targets if isinstance(a, ast.Assign) else [a.target]
+            st = list(st)
+            for t in tgts:
+                for x in ast.walk(t):
+                    if isinstance(x, ast.Name) and x.id in idx and isinstance(x.ctx, ast.Store):
+                        if isinstance(t, ast.Name) and isinstance(a.value, ast.Constant):
+                            st[idx[x.id]] = "N" if a.value.value is None else "NN"
+                        elif isinstance(t, ast.Name) and isinstance(a.value, (ast.List, ast.Tuple, ast.Dict, ast.Set, ast.JoinedStr)):
+                            st[idx[x.id]] = "NN"
+                        else:
+                            st[idx[x.id]] = "U"
+            return tuple(st)
+        if node.kind in ("for_iter", "for_init", "with_enter") and a is not None:
+            st = list(st)
+            tg = getattr(a, "target", None)
+            for x in ast.walk(tg) if tg is not None else []:
+                if isinstance(x, ast.Name) and x.id in idx:
+                    st[idx[x.id]] = "U"
+            return tuple(st)
+        return st
+
+    def edge_fn(node, st, label, succ):
+        if edge_ok is not None and not edge_ok(node.id, succ, label):
+            return None
+        if node.kind == "test" and label in ("true", "false"):
+            e = node.ast
+            v = pol = None
+            if isinstance(e, ast.Name) and e.id in idx:
+                v, pol = e.id, "truthy"
+            elif isinstance(e, ast.Compare) and len(e.ops) == 1 and isinstance(e.left, ast.Name) and e.left.id in idx \
+                    and isinstance(e.comparators[0], ast.Constant) and e.comparators[0].value is None:
+                v, pol = e.left.id, ("isnone" if isinstance(e.ops[0], ast.Is) else "notnone" if isinstance(e.ops[0], ast.IsNot) else None)
+            if v is not None and pol is not None:
+                cur = st[idx[v]]
+                if pol == "isnone":
+                    if (cur == "N" and label == "false") or (cur == "NN" and label == "true"):
+                        return None
+                    new = "N" if label == "true" else "NN"
+                elif pol == "notnone":
+                    if (cur == "N" and label == "true") or (cur == "NN" and label == "false"):
+                        return None
+                    new = "NN" if label == "true" else "N"
+                else:
+                    if cur == "N" and label == "true":
+                        return None
+                    new = "NN" if label == "true" else cur
+                st = list(st)
+                st[idx[v]] = new
+                return tuple(st)
+        return st
+    init = tuple("U" for _ in names)
+    p = Product(g, [(s, init) for s in srcs if s not in avoid], node_fn, edge_fn)
+    return {n for (n, _st) in p.at if n not in avoid}
+
+
+def must_pass_ps(g: CFG, targets, through, start=None, edge_ok=None):
+    """must_pass() on top of reach_ps()."""
+    start = [g.entry] if start is None else list(start)
+    through = set(through)
+    r = reach_ps(g, [s for s in start if s not in through], avoid=through, edge_ok=edge_ok)
+    return [t for t in targets if t in r and t not in through]
